@@ -1,6 +1,7 @@
 import Driver.Kernels
 import Driver.Transforms
 import Driver.Cable
+import Driver.Scan
 open Driver
 
 def handle (line : String) : String :=
@@ -12,6 +13,8 @@ def handle (line : String) : String :=
   | "tff" :: rest => handleTf true rest
   | "tfi" :: rest => handleTf false rest
   | "cable" :: rest => handleCable rest
+  | "nscan" :: rest => handleNScan rest
+  | "icore" :: rest => handleICore rest
   | "ping" :: _ => "pong"
   | _ => "bad-op"
 
